@@ -165,3 +165,98 @@ class ConnReset(Unit):
 
 
 UNITS = [Submit("_AsyncNodeWrapper"), Submit("_AsyncConnectionWrapper"), SynchronizerStep(), AsyncRunSupervisor(), ConnReset()]
+
+
+class NodeReset(Unit):
+    """episode isolation on the node side: _reset bumps the episode counter once, zeroes tick and drift, installs fresh empty queues,
+    resets every input exactly once and takes the step state of the given graph state"""
+    name = "_AsyncNodeWrapper._reset"
+    target = aw.AS + "::_AsyncNodeWrapper._reset"
+    props = ("C03", "C02")
+
+    def configs(self):
+        for state in ("STOPPED", "READY"):
+            for k in (0, 2):
+                yield f"{state},fanin={k}", dict(state=state, fanin=(False, True)[:k])
+
+    def run(self, ctx):
+        ex, cfg = ctx.ex, ctx.cfg
+        w, n, ins, outs = mk_node_world(ctx, dict(fanin=cfg["fanin"], state=cfg["state"]))
+        n.f["_has_warmed_up"] = True
+        n.f["_jit_reset"] = lambda ex_, rng: z3.Function("dist_reset", Leaf, Leaf)(rng)
+        n.f["node"].f["delay_dist"] = Rec("StaticDist", dict(mean=lambda ex_: z3.Real("mean_delay")), module=None)
+        n.f["node"].f["phase_output"] = z3.Real("n.node_phase_output")
+        n.f["_record"] = Opaque("old record"); n.f["_record_steps"] = Opaque("old steps"); n.f["_phase_output"] = None
+        resets = []
+        for i in ins:
+            i.f["reset"] = (lambda ii: (lambda ex_, rng, ist: resets.append((ii, rng, ist))))(i)
+        names = [i.f["connection"].f["input_name"] for i in ins]
+        ss = mk_step_state(ctx, "ss", names)
+        gs = Rec("GraphState", dict(step=z3.Int("gs.step"), eps=z3.Int("gs.eps"), rng={"n": ss.f["rng"]}, seq={"n": ss.f["seq"]}, ts={"n": ss.f["ts"]}, params={"n": ss.f["params"]},
+                                    state={"n": ss.f["state"]}, inputs={"n": ss.f["inputs"]}, timings_eps=None, buffer=None, aux={}), module="rex/base.py", frozen=True)
+        eps0 = n.f["_eps"]
+        ex.lib.ns["concurrent.futures"].entries["Future"]    # (present)
+        ctx.call(self_obj=n, args=[gs, CLOCK["SIMULATED"], z3.Real("rtf")])
+        qs = ["q_tick", "q_ts_scheduled", "q_ts_end_prev", "q_ts_start", "q_rng_step", "q_sample"]
+        ctx.ensure("C03/C05 new episode: fresh empty queues on the node", z3.BoolVal(all(isinstance(n.f[q], _EmptyDeque) for q in qs) and len({id(n.f[q]) for q in qs}) == len(qs)))
+        ctx.ensure("C03/C05 new episode: episode counter + 1, tick 0, drift 0, phase taken from the node, no record, state READY",
+                   z3.And(toz(n.f["_eps"]) == eps0 + 1, toz(n.f["_tick"]) == 0, toz(n.f["_phase_scheduled"]) == 0, toz(n.f["_phase"]) == n.f["node"].f["phase"], toz(n.f["_discarded"]) == 0,
+                          z3.BoolVal(n.f["_record"] is None and n.f["_record_steps"] is None and n.f["_state"] == ASYNC["READY"] and n.f["_clock"] is CLOCK["SIMULATED"])))
+        ctx.ensure("C01/C02 the step state of the given graph state is installed and the delay sampler is seeded from its rng (reproducible between runtimes)",
+                   z3.And(toz(aw.same(n.f["_step_state"].f["rng"], ss.f["rng"])), toz(aw.same(n.f["_step_state"].f["state"], ss.f["state"])), toz(n.f["_dist_state"]) == z3.Function("dist_reset", Leaf, Leaf)(ss.f["rng"])))
+        ctx.ensure("every input is reset exactly once, each with its own key split from the step rng and its own input state",
+                   z3.BoolVal(len(resets) == len(ins) and [r[0].oid for r in resets] == [i.oid for i in ins] and all(r[2] is ss.f["inputs"][nm] for r, nm in zip(resets, names))
+                              and len({str(r[1]) for r in resets}) == len(resets)))
+
+
+class AsyncApi(Unit):
+    """the driving API of the threaded runtime: run = run_supervisor . run_until_supervisor (start first if needed), step = run_until_supervisor . run_supervisor,
+    reset = run_until_supervisor after (re)start: the same two building blocks whichever way the user drives the graph"""
+    props = ("C02", "C09x")
+
+    def __init__(self, which):
+        self.which = which
+        self.name = f"AsyncGraph.{which}"
+        self.target = aw.AS + f"::AsyncGraph.{which}"
+
+    def configs(self):
+        if self.which == "run":
+            yield "initial", dict(initial=True)
+            yield "running", dict(initial=False)
+        else:
+            yield "default", dict(initial=False)
+
+    def run(self, ctx):
+        ex, cfg = ctx.ex, ctx.cfg
+        START, RUS_, RS_ = z3.Function("a_start", Leaf, Leaf), z3.Function("a_run_until_supervisor", Leaf, Leaf), z3.Function("a_run_supervisor", Leaf, Leaf, Leaf, Leaf)
+        SSOF = z3.Function("a_step_state_of", Leaf, Leaf)
+        NONE = z3.Const("None!leaf", Leaf)
+        calls = []
+
+        class SS:
+            def __init__(self, gs):
+                self.gs = gs
+
+            def pyvc_getitem(self, ex_, i):
+                return SSOF(self.gs)
+        ex.opts["leaf_attr"] = lambda ex_, o, attr: SS(o) if attr == "step_state" else None
+        sup = Rec("BaseNode", dict(name="sup"), module=None)
+        g = Rec("AsyncGraph", dict(_initial_step=cfg["initial"], supervisor=sup,
+                                   start=lambda ex_, gs, timeout=None: (calls.append("start"), START(gs))[1],
+                                   run_until_supervisor=lambda ex_, gs: (calls.append("rus"), RUS_(gs))[1],
+                                   run_supervisor=lambda ex_, gs, ss=None, out=None: (calls.append("rs"), RS_(gs, ss if ss is not None else NONE, out if out is not None else NONE))[1]), module=aw.AS)
+        gs = z3.Const("gs", Leaf)
+        if self.which == "run":
+            ret = ctx.call(self_obj=g, args=[gs])
+            base = START(gs) if cfg["initial"] else gs
+            ctx.ensure("C02 run = (start if not started yet); run_until_supervisor; run_supervisor with the supervisor's own step", z3.And(toz(ret) == RS_(RUS_(base), NONE, NONE), z3.BoolVal(calls == (["start"] if cfg["initial"] else []) + ["rus", "rs"])))
+        elif self.which == "reset":
+            ret = ctx.call(self_obj=g, args=[gs])
+            ctx.ensure("C02 reset = start; run_until_supervisor, returning the supervisor's pending step state", z3.And(toz(ret[0]) == RUS_(START(gs)), toz(ret[1]) == SSOF(RUS_(START(gs))), z3.BoolVal(calls == ["start", "rus"])))
+        else:
+            ss, out = z3.Const("given_ss", Leaf), z3.Const("given_out", Leaf)
+            ret = ctx.call(self_obj=g, args=[gs, ss, out])
+            ctx.ensure("C02 step = run_supervisor(given state / output); run_until_supervisor", z3.And(toz(ret[0]) == RUS_(RS_(gs, ss, out)), toz(ret[1]) == SSOF(RUS_(RS_(gs, ss, out))), z3.BoolVal(calls == ["rs", "rus"])))
+
+
+UNITS += [NodeReset(), AsyncApi("run"), AsyncApi("step"), AsyncApi("reset")]
